@@ -200,7 +200,7 @@ def model(c, ans):
     re = G.dec_lres(a[1], G.dec_sm)
     det = G.dec_lres(a[2], G.dec_simfile)
     t2 = ["ok", S(a[3][0])] if a[3] else ["err", re[1]]
-    return {"sf": o, "text": S(a[0]), "ser_file_same": True, "reload": re, "detect": det, "text2": t2, "eq": ["ok", re == ["ok", o]]}
+    return {"sf": o, "text": S(a[0]), "ser_file_same": True, "reload": re, "detect": det, "text2": t2, "eq": ["ok", bool(re[0] == "ok" and re[1][0] == o[0] and re[1][1] == o[1] and [ch[0] for ch in re[1][2]] == [ch[0] for ch in o[2]])]}     # the library's == looks at properties and the six chart fields, not at extra components
 
 
 def oracle(c, o):
